@@ -608,6 +608,16 @@ func runRealInner(c *Case, out *RealOut) {
 	if c.Dispatch && err == nil {
 		w.Reset()
 		ctx := context.WithValue(context.Background(), ctxKey("verif"), "ctx")
+		switch c.DeadCtx {
+		case 1:
+			cctx, cancel := context.WithCancel(ctx)
+			cancel()
+			ctx = cctx
+		case 2:
+			dctx, cancel := context.WithDeadline(ctx, time.Unix(1, 0))
+			defer cancel()
+			ctx = dctx
+		}
 		derr := root.Dispatch(ctx, rem)
 		out.DWriter = w.String()
 		if derr != nil {
